@@ -126,3 +126,58 @@ Proof.
   split; [exact (P1 Hi1)|]. split; [exact (P2 Hi2)|]. exact (Htags k1 k2 Hin).
 Qed.
 End Link.
+
+(* ---------- the same with the surface environments CONSTRUCTED ---------- *)
+From T4V Require Import C13.ProofsTr3.
+
+Section LinkEnv.
+Context {Tr P : Type} (act : Tr -> P -> P).
+
+(* senv0 = the senses of the deck's own surfaces (numbers <= b).  Each run reads
+   the surfaces made by pot_transform as the interface law prescribes
+   ([senv_of]); that these environments satisfy the law on the final states and
+   read the parsed cells alike is now proved (senv_of_ok, runs_surf_agree), not
+   assumed.  What is still assumed of the semantics: D_i is a model of the cell
+   table of run i at every point, and sigma_i / matching_i are the TRIPOLI-4 level
+   reading of senv_of senv0 s_i at p. *)
+Theorem options_same_written_tr_env
+  (b : Z) (senv0 : Z -> P -> bool) dic0 tinfo fuel key
+  (sa sb : @tstate Tr) todo1 todo2 (its : list (@item P))
+  (D1 D2 : Z -> P -> bool) (p : P)
+  sigma1 matching1 sigma2 matching2 u0 u1 v0 v1 cfuel cnt1 cnt2 s1 s2 rn1 rn2 sk1 sk2 w1 w2 k1 k2 :
+  sinv b sa -> sinv b sb -> (forall k c, lookup k dic0 = Some c -> gb b (cgeom c)) ->
+  spec act fuel dic0 tinfo key = Some its ->
+  Forall2 (matches act sa) todo1 its -> Forall2 (matches act sb) todo2 its ->
+  cells_ok (senv_of act senv0 sa) D1 sa -> cells_ok (senv_of act senv0 sb) D2 sb ->
+  (forall s, sigmaM sigma1 matching1 s = senv_of act senv0 sa s p) ->
+  (forall s, sigmaM sigma2 matching2 s = senv_of act senv0 sb s p) ->
+  good_cells matching1 (tcells sa) -> good_cells matching2 (tcells sb) ->
+  0 < u0 -> 0 < u1 -> C01.Spec.consistent sigma1 u0 u1 ->
+  0 < v0 -> 0 < v1 -> C01.Spec.consistent sigma2 v0 v1 ->
+  NoDup todo1 -> NoDup todo2 ->
+  (forall k, In k todo1 -> k <= cnt1) -> (forall k, In k todo2 -> k <= cnt2) ->
+  C01.Model.convert_cells cfuel (embed_cells (tcells sa)) matching1 u0 u1 todo1 (C01.Model.mkSt cnt1 [] [] []) = C01.Model.Ok s1 ->
+  C01.Model.convert_cells cfuel (embed_cells (tcells sb)) matching2 v0 v1 todo2 (C01.Model.mkSt cnt2 [] [] []) = C01.Model.Ok s2 ->
+  C01.Model.prune u0 u1 rn1 (C01.Model.vols s1) = C01.Model.Ok w1 ->
+  C01.Model.prune v0 v1 rn2 (C01.Model.vols s2) = C01.Model.Ok w2 ->
+  (forall r, rn1 = Some r -> C01.ProofsPrune.respects sigma1 r) ->
+  (forall r, rn2 = Some r -> C01.ProofsPrune.respects sigma2 r) ->
+  (forall k, In k sk1 -> k <= cnt1 /\ ~ In k todo1) -> (forall k, In k sk2 -> k <= cnt2 /\ ~ In k todo2) ->
+  In (k1, k2) (combine todo1 todo2) ->
+  D1 k1 p = true -> (forall c, In c todo1 -> D1 c p = true -> c = k1) ->
+  (forall k, C01.ProofsCells.in_volume sigma1 (C01.Model.written sk1 w1) k <-> k = k1) /\
+  (forall k, C01.ProofsCells.in_volume sigma2 (C01.Model.written sk2 w2) k <-> k = k2) /\
+  exists c1 c2, lookup k1 (tcells sa) = Some c1 /\ lookup k2 (tcells sb) = Some c2 /\
+                corigin c1 = corigin c2 /\ cmat c1 = cmat c2.
+Proof.
+  intros Ia Ib Hg Hs M1 M2 C1 C2.
+  pose proof (senv_of_ok act b senv0 sa Ia) as [So1 _].
+  pose proof (senv_of_ok act b senv0 sb Ib) as [So2 _].
+  pose proof (spec_den_agree act dic0 tinfo _ _ (runs_surf_agree act b senv0 dic0 sa sb Ia Ib Hg) fuel key its Hs) as Hag.
+  apply (options_same_written_tr act sa sb todo1 todo2 its
+           (senv_of act senv0 sa) D1 (senv_of act senv0 sb) D2 p); auto.
+  - split; assumption.
+  - split; assumption.
+  - revert Hag. apply Forall_impl. intros it H. apply H.
+Qed.
+End LinkEnv.
